@@ -5,6 +5,59 @@ use crate::verif::hexd;
 
 use prost::Message;
 
+fn spec_entry(s: &str) -> Option<schema::bitswap::wantlist::Entry> {
+    use crate::verif::c19::spec;
+    let f: Vec<&str> = s.split('/').collect();
+    let [b, p, c, w, d] = f.as_slice() else { return None };
+    Some(schema::bitswap::wantlist::Entry {
+        block: spec::b(b)?,
+        priority: spec::int(p)?,
+        cancel: spec::b01(c)?,
+        want_type: spec::int(w)?,
+        send_dont_have: spec::b01(d)?,
+        ..Default::default()
+    })
+}
+
+fn spec_wantlist(s: &str) -> Option<Option<schema::bitswap::Wantlist>> {
+    use crate::verif::c19::spec;
+    if s == "none" {
+        return Some(None);
+    }
+    let f: Vec<&str> = s.split(':').collect();
+    let [full, entries] = f.as_slice() else { return None };
+    Some(Some(schema::bitswap::Wantlist {
+        entries: spec::list(entries, spec_entry)?,
+        full: spec::b01(full)?,
+        ..Default::default()
+    }))
+}
+
+/// `encpb bitswap <wantlist> <blocks> <payload> <presences> <pendingBytes>`: prost's encoder on a
+/// structured message, then prost's decoder on the bytes.
+pub(crate) fn encpb(t: &[&str]) -> Option<String> {
+    use crate::verif::c19::spec;
+    let [wl, blocks, payload, pres, pending] = t else { return None };
+    let m = schema::bitswap::Message {
+        wantlist: spec_wantlist(wl)?,
+        blocks: spec::lb(blocks)?,
+        payload: spec::list(payload, |s| {
+            let f: Vec<&str> = s.split('/').collect();
+            let [p, d] = f.as_slice() else { return None };
+            Some(schema::bitswap::Block { prefix: spec::b(p)?, data: spec::b(d)?, ..Default::default() })
+        })?,
+        block_presences: spec::list(pres, |s| {
+            let f: Vec<&str> = s.split('/').collect();
+            let [c, t] = f.as_slice() else { return None };
+            Some(schema::bitswap::BlockPresence { cid: spec::b(c)?, r#type: spec::int(t)?, ..Default::default() })
+        })?,
+        pending_bytes: spec::int(pending)?,
+        ..Default::default()
+    };
+    let bytes = m.encode_to_vec();
+    Some(format!("ok {} ==> {}", hexd(&bytes), pb(&bytes)))
+}
+
 /// Canonical dump of `schema::bitswap::Message::decode`.
 pub(crate) fn pb(bytes: &[u8]) -> String {
     match schema::bitswap::Message::decode(bytes) {
